@@ -856,6 +856,23 @@ pub fn gen_c14(out: &mut dyn Write, thorough: bool, seed: u64) {
         if with_tags {
             gen_tag_models(&mut r, &mut m, &alpha, 4);
         }
+        // a model file may name one token in two tag models (two files merged; the trainer never does it): the later one counts, and
+        // the tokens listed behind the first occurrence keep their own tag n-grams
+        if with_tags && i % 7 == 3 && !m.tag_models.is_empty() {
+            let mut dup = m.tag_models[0].clone();
+            for b in dup.bias.iter_mut() {
+                *b = -*b + 1;
+            }
+            for g in dup.char_ngrams.iter_mut() {
+                for w in g.weights.iter_mut() {
+                    for x in w.1.iter_mut() {
+                        *x = -*x;
+                    }
+                }
+            }
+            let at = if m.tag_models.len() >= 2 && i % 2 == 1 { m.tag_models.len() } else { 1 };
+            m.tag_models.insert(at, dup);
+        }
         // weight vectors with trailing and inner zeros
         for (_, w) in m.char_ngrams.iter_mut() {
             if r.chance(1, 2) {
